@@ -5,8 +5,8 @@ From Coq Require Import ZArith.
 From Verif Require Import Region.Model Region.Converge Region.PdCodec Region.Peers.
 Extraction Language OCaml.
 Extraction "region_model.ml"
-  empty_cache contains contains_by_end search insert_region
-  find_region_by_key try_find locate_by_id
+  empty_cache contains contains_by_end search insert_region insert_new
+  find_region_by_key try_find locate_by_id load_by_id
   batch_load_range batch_load_ranges load_regions_in_range locate_key_range batch_locate
   group_assign groups_of list_region_ids
   invalidate update_leader rpc_ctx on_send_fail re_resolve switch_work set_work invalidate_r store_epoch on_bucket_version_not_match update_buckets locate_bucket_full bk_ver on_epoch_not_match gc
